@@ -95,6 +95,8 @@ func (s *State) clone() *State {
 }
 
 type Engine struct {
+	globalAddrs     map[*types.Var]T // heap cells of assigned package variables
+	globalAddrOrder []*types.Var
 	// goal-directed instantiation: positive universal quantifiers of a goal clause are replaced by fresh constants
 	// (skolemGoal); the same clause, assumed earlier (loop invariant at the head), is then instantiated at them
 	pol        int
@@ -247,6 +249,12 @@ func (e *Engine) assume(st *State, fact T, origin string) {
 	if fact.s == "true" {
 		return
 	}
+	if e.quant > 0 && len(e.quantSide) > 0 {
+		// inside a quantifier body the path condition (and possibly the fact) mentions the bound variables: the
+		// fact is assumed, universally quantified, when the quantifier is closed
+		e.quantSide[len(e.quantSide)-1] = append(e.quantSide[len(e.quantSide)-1], Implies(st.pc, fact))
+		return
+	}
 	e.facts = append(e.facts, Fact{Implies(st.pc, fact), origin})
 }
 
@@ -255,7 +263,7 @@ func (e *Engine) assumeQ(st *State, fact T, origin string) {
 		// inside a quantifier body: the typed-memory fact about a term that mentions the bound variable is
 		// recorded and assumed, universally quantified, when the quantifier is closed
 		if n := len(e.quantSide); n > 0 && fact.s != "true" {
-			e.quantSide[n-1] = append(e.quantSide[n-1], fact)
+			e.quantSide[n-1] = append(e.quantSide[n-1], Implies(st.pc, fact))
 		}
 		return
 	}
